@@ -192,6 +192,18 @@ var specs = map[string]spec{
 		},
 		Assumptions: commonAssumptions, Plain: true, QuickStride: 1, ThoroughStride: 1, QuickDeadline: 420, ThoroughDeadline: 3000,
 	},
+	"C09": {
+		LevelText: "three complementary exhaustive explorations on one freshly compiled (cold) bundle: (1) every interleaving of two logical threads (three in the thorough tier), each running one of 8 operations (renders of the same and different templates over shared data and a shared message bundle, failing render, JavaScript generation under both formatters, compilation of an independent bundle), under a controlled scheduler whose yield points are every 4th (preemption bound 1) and every 32nd (bound 2) instrumented function entry / loop iteration of each thread, plus thread start, exit and channel operations, up to the preemption bound, each thread's output compared with its solo output; (2) solo runs in which a deep digest of all shared state is taken at the yield points - no step may change it (render code has no synchronisation, so a write to shared state is a data race, and steps that write nothing shared commute); (3) the same bodies free-running on real goroutines in a -race build, the detector's reports being violations",
+		LevelNote: "the cooperative scheduler's hand-offs hide races from the detector, hence the separate free-running -race pass (a detector report is never a false positive; silence there is supporting evidence only); scheduler granularity is function entry / loop iteration; preemption bound 2 for the render/render scenarios and 1 for the others in the quick tier",
+		Technique: "stateless model checking under a controlled scheduler (preemption-bounded DFS), shared-state digest invariant, plus a free-running race-detector pass",
+		Level:     "model_checking",
+		Rule:      "states = thread-operation scenarios (ordered pairs/triples of operations) + solo operations; transitions = complete schedules executed (counter schedules) + digested solo steps; every scenario is non-trivial (>=2 threads contend for the same compiled bundle)",
+		Bounds: map[string]string{
+			"quick":    "8 operations; all 64 ordered pairs on 2 threads; every schedule with <=1 preemption at every 4th yield point and <=2 preemptions at every 32nd; a non-canonical successor at a blocking switch counts as a deviation; solo digest every third step; race pass 64 scenarios x 3 goroutines x 30 cold starts",
+			"thorough": "3 threads, preemption bound 2 everywhere (capped at 300000 schedules per scenario), race pass x 200 cold starts",
+		},
+		Assumptions: commonAssumptions, Plain: true, QuickStride: 1, ThoroughStride: 1, QuickDeadline: 420, ThoroughDeadline: 3000, Race: true, OrderSensitive: true,
+	},
 	"C05": {
 		LevelText: "bounded exhaustive exploration of the real parser: every input of the stated small scopes is parsed under a controlled scheduler with a deterministic linear fuel bound (no wall clock), and small inputs under every parser/scanner interleaving up to 2 preemptions; termination, no panic, no deadlock and tree-xor-error are checked on every execution and every case is replayed on the uninstrumented build",
 		LevelNote: "assumes the bounded scopes are representative (small-scope hypothesis) and that the overlay instrumentation preserves behaviour (cross-checked case by case against the plain build)",
